@@ -62,9 +62,12 @@ def includedPlanes (psi : List Nat) (nonempty : List Bool) (om : Bool) : List Na
 structure Frame where
   /-- ReferencedSegmentNumber; `none` for a label map -/
   seg : Option Nat
-  /-- index of the input plane whose pixels (`pixel_array[plane_index]`) and position (`plane_positions[plane_index]`)
-  the frame carries -/
+  /-- index of the input plane whose pixels the frame carries (`pixel_array[…]`) -/
   plane : Nat
+  /-- index of the input plane whose position the frame records (`plane_positions[…]`); the loop takes both from the same
+  `plane_index` — that they coincide is not built into the structure but follows from the regenerated bookkeeping block
+  `Gen.frameBookkeeping` (bridge `frame_loop_uses_the_source`) -/
+  posPlane : Nat
   /-- `plane_dim_ind`: the entry of DimensionIndexValues for the position dimension -/
   div : Int
 deriving DecidableEq, Repr
@@ -78,7 +81,7 @@ def planeFrames (s : Option Nat) (om : Bool) (present : Option Nat → Nat → B
   | _, [] => []
   | d, p :: t =>
     if skipped s om (present s p) then planeFrames s om present (d + 1) t
-    else ⟨s, p, d⟩ :: planeFrames s om present (d + 1) t
+    else ⟨s, p, p, d⟩ :: planeFrames s om present (d + 1) t
 
 /-- `segments_iterable` -/
 def segmentsIterable (labelmap : Bool) (described : List Nat) : List (Option Nat) :=
@@ -104,7 +107,7 @@ def Frame.indexValues (f : Frame) : List Int :=
   | some s => [(s : Int), f.div]
 
 /-- positions of the frames, in frame order -/
-def framePositionsOf (pos : List V3) (frames : List Frame) : Option (List V3) := frames.mapM (fun f => pos[f.plane]?)
+def framePositionsOf (pos : List V3) (frames : List Frame) : Option (List V3) := frames.mapM (fun f => pos[f.posPlane]?)
 
 /-- what the read side sees of the stored frames: per-frame positions and segment numbers in frame order, shared
 orientation and measures -/
